@@ -509,3 +509,66 @@ def r19_7(ctx, rr):
                 rr.violate(key, "%s narrows `%s` from %s to %s: counts of variables/equations are unbounded, the cast is exact only below 2^%d" % (b.key, show(F, n)[:60], src, dst, WIDTH[dst]), F.loc(n))
     if n_casts < 10:
         raise AnchorMissing("R19.7 saw %d integer casts in mod2_sys.rs" % n_casts)
+
+
+@rule("R19.8", props=["C19", "C07", "C08"], scope_all=True, floor=4, title="echelon_form visits every row (outer loop up to the number of equations, inner loop from the next row to the last); every solution vector has one entry per variable")
+def r19_8(ctx, rr):
+    """An echelon form has at most num_vars non-zero rows, but the rows are consumed in order, vanished ones included:
+    stopping the outer loop at min(len - 1, num_vars) leaves the remaining rows unreduced and unchecked (a contradiction
+    among them is answered Ok; a consistent overdetermined system gets an assignment that violates them). A solution
+    is indexed by variable: its length is num_vars also for a system without equations."""
+    F = ctx.F()
+    b = F.one(r"^utils::mod2_sys::Modulo2System::<W>::echelon_form$")
+    W = Walker(F, b)
+    W.run()
+    fl = for_loops(b.body)
+    if len(fl) < 2:
+        raise AnchorMissing("echelon_form: expected the two nested row loops")
+
+    def is_eq_len(t):
+        return t[0] == "call" and t[1].split("::")[-1] == "len" and len(t[2]) == 1 and mentions(t[2][0], lambda x: x[0] == "field" and x[2] == "equations")
+    outer = None
+    for pat, it, body in fl:
+        r = range_of(F, it)
+        if r is None:
+            continue
+        lo, hi, incl = r
+        if any(x.get("k") == "Match" and x.get("src") == "ForLoopDesugar" for x in walk(body)):
+            outer = (pat, r)
+        else:
+            inner = (pat, r)
+    if outer is None:
+        raise AnchorMissing("echelon_form: the outer row loop is not a range loop")
+    (_p, (lo, hi, incl)) = outer
+    th = W.expand(W.T.term(hi)) if hi is not None else None
+    rr.instances += 1
+    minus_one = th is not None and ((th[0] == "op" and th[1] == "-" and is_eq_len(th[2]) and th[3] == ("int", 1)) or
+                                    (th[0] == "call" and th[1].split("::")[-1] in ("saturating_sub", "wrapping_sub") and len(th[2]) == 2 and is_eq_len(th[2][0]) and th[2][1] == ("int", 1)))
+    ok = th is not None and (is_eq_len(th) or (minus_one and not incl)) and W.T.term(lo) == ("int", 0)
+    rr.check(ok, "echelon_form:outer-loop-over-all-rows", "echelon_form: the outer loop must take every row but the last as the pivot row in turn (0..equations.len() - 1); found the end `%s`: rows beyond it are neither reduced nor tested for unsolvability" % (tshow(th)[:80] if th else None), b.span)
+    (_pi, (lo2, hi2, incl2)) = inner
+    th2 = W.expand(W.T.term(hi2)) if hi2 is not None else None
+    rr.instances += 1
+    rr.check(th2 is not None and is_eq_len(th2) and not incl2, "echelon_form:inner-loop-to-last-row", "echelon_form: the inner loop must run over every later row (i + 1..equations.len()); found the end `%s`" % (tshow(th2)[:80] if th2 else None), b.span)
+    # solution vectors
+    for path in (r"^utils::mod2_sys::Modulo2System::<W>::gaussian_elimination$", r"^utils::mod2_sys::Modulo2System::<W>::lazy_gaussian_elimination$"):
+        sb = F.one(path)
+        slf = ("var", "self", sb.params[0]["id"])
+        Ws = Walker(F, sb)
+        sites = []
+
+        def on_node(Wk, n, K, sites=sites):
+            cn = cname(F, n) or ""
+            if n.get("k") in ("Call", "MethodCall") and cn.endswith("vec::from_elem") and not Wk.debug_depth:
+                # only vectors of W (values of variables): the element is W::ZERO
+                a = call_args(n)
+                if len(a) == 2 and "ZERO" in show(F, a[0]):
+                    sites.append((n, Wk.expand(Wk.T.term(a[1]))))
+        Ws.on_node = on_node
+        Ws.run()
+        if not sites:
+            raise AnchorMissing("%s: no solution vector `vec![W::ZERO; ..]`" % sb.key)
+        for n, cnt in sites:
+            rr.instances += 1
+            okc = cnt == ("field", slf, "num_vars")
+            rr.check(okc, "%s:solution-has-num_vars-entries" % short_fn(sb.key), "%s creates a vector of values of length `%s`: a solution has one entry per variable (`self.num_vars`), also for a system without equations" % (sb.key, tshow(cnt)[:60]), F.loc(n))
